@@ -17,9 +17,10 @@ SET_PARENT_ENSURES = [
     ('segment_last_index', 'implies(value is not None, seg_last_ok(value, self))'),
 ] + guard('value is not None', real_attach(SP, 'self'), 'attached')
 
-SET_PARENT_MODIFIES = ['self._parent', 'self._traversal_parent', 'value.children.list[]', 'value.children.indexes{}',
-                       'idx_list(value.children, self.name)[]', 'value.children.traversal_indexes{}',
-                       'tidx_list(value.children, self.name)[]', 'field Segment._last_child_index']
+# (x.parent = None only unlinks: nothing on any parent's side is written)
+SET_PARENT_MODIFIES = ['self._parent', 'self._traversal_parent'] + ['value is not None ? ' + m for m in (
+    'value.children.list[]', 'value.children.indexes{}', 'idx_list(value.children, self.name)[]',
+    'value.children.traversal_indexes{}', 'tidx_list(value.children, self.name)[]', 'field Segment._last_child_index')]
 
 SET_PARENT_RAISES = {
     # a rejected attach has written nothing but (possibly) the child's own link fields
@@ -116,7 +117,8 @@ contract(
         ('segment_last_index', 'implies(value is not None, seg_last_ok(value, self))'),
     ],
     raises={n: {'when': 'value is not None'} for n in ('ChildNotValid', 'ChildNotFound', 'MaxChildLimitReached', 'OperationNotAllowed')},
-    modifies=['self._traversal_parent', 'value.children.traversal_indexes{}', 'tidx_list(value.children, self.name)[]',
+    modifies=['self._traversal_parent', 'value is not None ? value.children.traversal_indexes{}',
+              'value is not None ? tidx_list(value.children, self.name)[]',
               'value is not None ? field Segment._last_child_index'],
     allocates=['La.R', 'Ll'],
     properties=['C10', 'C11'],
